@@ -240,32 +240,54 @@ class Fam:
             items.append(ls[0] if len(ls) == 1 else "(or %s)" % " ".join(ls))
         return self.groups(items, k)
 
-    # --- BMC-like layers: group i relates the interface variables of layer i-1 to those of layer i (path interpolation)
+    # --- BMC-like layers: group i relates the interface variables of layer i-1 to those of layer i (path interpolation).
+    #     Drawn until the conjunction is propositionally unsat while every proper prefix and suffix of groups is satisfiable
+    #     (brute force over the <= 10 layer variables), so that the interpolants of the sequence are not constants.
     def layers(self, k):
+        import itertools
         r, g = self.r, self.g
         k = max(2, min(k, 6))
-        lv = [g.layervars[2 * i:2 * i + 2] for i in range(k - 1)]
+        w = 3 if k <= 4 else 2
+        lv = [g.layervars[w * i:w * i + w] for i in range(k - 1)]
+        allv = [v for l in lv for v in l]
 
-        def lit(v):
-            return v if r.random() < 0.5 else "(not %s)" % v
+        def draw():
+            groups = []
+            for i in range(k):
+                left = lv[i - 1] if i > 0 else []
+                right = lv[i] if i < k - 1 else []
+                cls = []
+                for _ in range(r.randint(2, 5)):
+                    if left and right:
+                        vs = r.sample(left, r.randint(1, 2)) + r.sample(right, r.randint(1, 2))
+                    else:
+                        vs = r.sample(left or right, r.randint(1, 2))
+                    cls.append([(v, r.random() < 0.5) for v in vs])
+                if r.random() < 0.2 and i + 1 < k - 1:
+                    cls.append([(r.choice(left or right), r.random() < 0.5), (r.choice(lv[i + 1]), r.random() < 0.5)])
+                groups.append(cls)
+            return groups
 
-        def clause(vs1, vs2):
-            ls = [lit(v) for v in r.sample(vs1, r.randint(1, len(vs1)))] + ([lit(v) for v in r.sample(vs2, r.randint(1, len(vs2)))] if vs2 else [])
-            return ls[0] if len(ls) == 1 else "(or %s)" % " ".join(ls)
+        def sat(groups):
+            cls = [c for gp in groups for c in gp]
+            for bits in itertools.product([False, True], repeat=len(allv)):
+                a = dict(zip(allv, bits))
+                if all(any(a[v] == sgn for v, sgn in c) for c in cls):
+                    return True
+            return False
+        groups = draw()
+        for _ in range(300):
+            if not sat(groups) and all(sat(groups[:i]) for i in range(1, k)) and all(sat(groups[i:]) for i in range(1, k)):
+                break
+            groups = draw()
         out = []
-        for i in range(k):
-            left = lv[i - 1] if i > 0 else []
-            right = lv[i] if i < k - 1 else []
+        for i, gp in enumerate(groups):
             cls = []
-            for _ in range(r.randint(2, 4)):
-                if left and right:
-                    cls.append(clause(left, right))
-                else:
-                    cls.append(clause(left or right, []))
-            if r.random() < 0.25 and (left or right) and (g.num or g.usort):
-                cls.append("(= %s %s)" % (r.choice(left or right), g.atom(1)))
-            if r.random() < 0.2 and i + 1 < k - 1:
-                cls.append(clause(left or right, lv[i + 1]))        # a link that skips a layer
+            for c in gp:
+                ls = [v if sgn else "(not %s)" % v for v, sgn in c]
+                cls.append(ls[0] if len(ls) == 1 else "(or %s)" % " ".join(ls))
+            if r.random() < 0.2 and (g.num or g.usort):
+                cls.append("(or %s %s)" % (r.choice(allv), g.atom(1)))
             out.append(cls[0] if len(cls) == 1 else "(and %s)" % " ".join(cls))
         return out
 
